@@ -31,7 +31,7 @@ type codec struct {
 	name   string
 	elem   int
 	prefix int // 1 for compressed forms (leading 02/03 byte)
-	dec    func(used bool, in []byte) decoded
+	dec    func(used int, in []byte) decoded
 	// oracle classifies the leading element of an input of at least elem bytes
 	oracle func(e []byte) (verdict int, cls string, wantUnc []byte)
 	// post is an extra check on an accepted result (nil = none); returns "" or a description
@@ -56,21 +56,61 @@ func coordsInRange(b []byte) bool {
 	return true
 }
 
-func usedG1() *vh.G1 { return g1Base(big.NewInt(5)) }
-func usedG2() *vh.G2 {
-	// a receiver left in non-affine form
-	q := g2Base(big.NewInt(5))
-	return new(vh.G2).Add(q, vh.Gen2)
+// receiver histories: 0 fresh, 1 result of a scalar multiplication (not normalised), 2 the point at infinity obtained
+// as P + (-P), 3 result of an addition (projective), 4 a receiver that already decoded an affine point
+const nReceivers = 5
+
+func usedG1(mode int) *vh.G1 {
+	switch mode {
+	case 1:
+		return g1Base(big.NewInt(5))
+	case 2:
+		q := g1Base(big.NewInt(7))
+		return new(vh.G1).Add(q, new(vh.G1).Neg(q))
+	case 3:
+		return new(vh.G1).Add(g1Base(big.NewInt(5)), vh.Gen1)
+	case 4:
+		r := new(vh.G1)
+		r.Unmarshal(g1Base(big.NewInt(9)).Marshal())
+		return r
+	}
+	return new(vh.G1)
+}
+func usedG2(mode int) *vh.G2 {
+	switch mode {
+	case 1:
+		return g2Base(big.NewInt(5))
+	case 2:
+		q := g2Base(big.NewInt(7))
+		return new(vh.G2).Add(q, new(vh.G2).Neg(q))
+	case 3:
+		return new(vh.G2).Add(g2Base(big.NewInt(5)), vh.Gen2)
+	case 4:
+		r := new(vh.G2)
+		r.Unmarshal(g2Base(big.NewInt(9)).Marshal())
+		return r
+	}
+	return new(vh.G2)
+}
+func usedGT(mode int) *vh.GT {
+	switch mode {
+	case 1:
+		return new(vh.GT).SetOne()
+	case 2, 3:
+		return vh.Pair(vh.Gen1, vh.Gen2)
+	case 4:
+		r := new(vh.GT)
+		r.Unmarshal(vh.Pair(vh.Gen1, vh.Gen2).Marshal())
+		return r
+	}
+	return new(vh.GT)
 }
 
 var codecs = []*codec{
 	{
 		name: "g1/unmarshal", elem: 64,
-		dec: func(used bool, in []byte) decoded {
-			g := new(vh.G1)
-			if used {
-				g = usedG1()
-			}
+		dec: func(used int, in []byte) decoded {
+			g := usedG1(used)
 			tail, err := g.Unmarshal(in)
 			return decoded{tail, err, g.Marshal, g.Marshal}
 		},
@@ -89,11 +129,8 @@ var codecs = []*codec{
 	},
 	{
 		name: "g1/unmarshal-compressed", elem: 33, prefix: 1,
-		dec: func(used bool, in []byte) decoded {
-			g := new(vh.G1)
-			if used {
-				g = usedG1()
-			}
+		dec: func(used int, in []byte) decoded {
+			g := usedG1(used)
 			tail, err := g.UnmarshalCompressed(in)
 			return decoded{tail, err, g.MarshalCompressed, g.Marshal}
 		},
@@ -120,11 +157,8 @@ var codecs = []*codec{
 	},
 	{
 		name: "g2/unmarshal", elem: 128,
-		dec: func(used bool, in []byte) decoded {
-			g := new(vh.G2)
-			if used {
-				g = usedG2()
-			}
+		dec: func(used int, in []byte) decoded {
+			g := usedG2(used)
 			tail, err := g.Unmarshal(in)
 			return decoded{tail, err, g.Marshal, g.Marshal}
 		},
@@ -143,11 +177,8 @@ var codecs = []*codec{
 	},
 	{
 		name: "g2/unmarshal-compressed", elem: 65, prefix: 1,
-		dec: func(used bool, in []byte) decoded {
-			g := new(vh.G2)
-			if used {
-				g = usedG2()
-			}
+		dec: func(used int, in []byte) decoded {
+			g := usedG2(used)
 			tail, err := g.UnmarshalCompressed(in)
 			return decoded{tail, err, g.MarshalCompressed, g.Marshal}
 		},
@@ -191,11 +222,8 @@ var codecs = []*codec{
 	},
 	{
 		name: "gt/unmarshal", elem: 384,
-		dec: func(used bool, in []byte) decoded {
-			g := new(vh.GT)
-			if used {
-				g = new(vh.GT).SetOne()
-			}
+		dec: func(used int, in []byte) decoded {
+			g := usedGT(used)
 			tail, err := g.Unmarshal(in)
 			return decoded{tail, err, g.Marshal, g.Marshal}
 		},
@@ -233,7 +261,7 @@ func (cd *codec) check(t *engine.T, in []byte, desc string, force int) {
 	}
 	t.Nontrivial(cd.name + "/" + cls + "/" + desc)
 	orig := append([]byte{}, in...)
-	for _, used := range []bool{false, true} {
+	for used := 0; used < nReceivers; used++ {
 		var d decoded
 		if t.Guard(cd.name, func() { d = cd.dec(used, in) }) {
 			return
@@ -246,7 +274,7 @@ func (cd *codec) check(t *engine.T, in []byte, desc string, force int) {
 		if d.err != nil {
 			t.Outcome(cd.name + "/reject/" + cls)
 			if verdict == mustAccept {
-				t.Fail(cd.name+"/valid-rejected", "%s [%s, used receiver=%v]: error %q for %s", desc, cls, used, d.err, hx(in))
+				t.Fail(cd.name+"/valid-rejected", "%s [%s, receiver history=%d]: error %q for %s", desc, cls, used, d.err, hx(in))
 			}
 			continue
 		}
@@ -254,7 +282,7 @@ func (cd *codec) check(t *engine.T, in []byte, desc string, force int) {
 		if verdict == mustReject {
 			var re []byte
 			t.Guard(cd.name, func() { re = d.reenc() })
-			t.Fail(cd.name+"/"+cls+"-accepted", "%s [used receiver=%v]: accepted %s (%d bytes); re-encoding of the result: %s", desc, used, hx(in), len(in), hx(re))
+			t.Fail(cd.name+"/"+cls+"-accepted", "%s [receiver history=%d]: accepted %s (%d bytes); re-encoding of the result: %s", desc, used, hx(in), len(in), hx(re))
 			continue
 		}
 		if !bytes.Equal(d.tail, in[cd.elem:]) {
